@@ -60,7 +60,11 @@ pub struct ItemLedger {
     pub max_in_flight: i64,
     pub on_err_calls: Vec<(String, u64)>,
     pub close_calls: Vec<(String, u64)>,
+    /// what the close callback found at the instant it was *invoked* (its synchronous part, before the future it
+    /// returns is first polled): (executor status, virtual time, finish delta >= start delta)
+    pub close_invocations: Vec<(String, u64, bool)>,
     pub uni_close_calls: Vec<u64>,
+    pub uni_close_invocations: Vec<u64>,
     pub notes: Vec<String>,
 }
 
@@ -180,6 +184,7 @@ fn raw_run<const I: usize>(p: &RawParams) {
         let close_cb = move |stats: Arc<dyn StreamExecutorStats + Send + Sync>| {
             let l_close = Arc::clone(&l_close);
             let stats_holder2 = Arc::clone(&stats_holder2);
+            l_close.lock().unwrap().close_invocations.push((format!("{:?}", stats.executor_status().load(Relaxed)), now_ms(t0), stats.execution_finish_delta_nanos() >= stats.execution_start_delta_nanos()));
             async move {
                 let status = stats.executor_status().load(Relaxed);
                 l_close.lock().unwrap().close_calls.push((format!("{:?}", status), now_ms(t0)));
@@ -342,21 +347,36 @@ fn raw_run<const I: usize>(p: &RawParams) {
             ctx::report("C12", "status_in_close_callback", key("status_in_close_callback"), format!("the close callback found the executor in state {} (scheduled to finish: {})", status, scheduled));
         }
     }
+    // ... and the same at the instant the callback is invoked (not only when the future it returns is polled)
+    if l.close_invocations.len() != 1 {
+        ctx::report("C12", "close_callback_count", key("close_callback_count"), format!("the executor's close callback was invoked {} times", l.close_invocations.len()));
+    } else {
+        let (status, at, finish_ok) = &l.close_invocations[0];
+        let last_item = l.finished.iter().map(|(_, t)| *t).chain(l.dropped_unfinished.iter().map(|(_, t)| *t)).max().unwrap_or(0);
+        let ended_ok = status == &format!("{:?}", ExecutorStatus::StreamEnded) || (status == &format!("{:?}", ExecutorStatus::ProgrammaticallyEnded) && scheduled);
+        if *at < last_item || !ended_ok || !finish_ok {
+            ctx::report("C12", "close_callback_invoked_early", key("close_callback_invoked_early"), format!("the close callback was invoked at {} us (last item finished at {} us) and found the executor in state {} (scheduled to finish: {}), finish time not before start time: {}", at, last_item, status, scheduled, finish_ok));
+        }
+    }
 }
 
 pub struct ExecRaw {
     pub property: &'static str,
 }
 
-fn draw_items(rng: &mut Rng, exec: ExecKind, timeout_ms: u32, max_items: u64) -> Vec<RawItem> {
+fn draw_items(rng: &mut Rng, exec: ExecKind, timeout_ms: u32, max_items: u64, unit_us: u32) -> Vec<RawItem> {
     let n = rng.below(max_items + 1) as usize;
+    // tokio's timer fires at millisecond ticks and a timeout polls its item first: an item is *surely* cancelled only if
+    // its deadline lies in a later tick than the timeout's, so with sub-millisecond units "slower than the timeout" is
+    // drawn at least two milliseconds slower (a faster item is never cancelled, whatever the tick)
+    let margin = if unit_us >= 1000 { 0 } else { 2000u32.div_ceil(unit_us.max(1)) };
     (0..n)
         .map(|_| {
             let slow = exec.is_future() && timeout_ms > 0 && rng.chance(1, 4);
             let delay_ms = if !exec.is_future() {
                 0
             } else if slow {
-                timeout_ms + 1 + rng.below(40) as u32
+                timeout_ms + margin + 1 + rng.below(40) as u32
             } else if timeout_ms > 0 {
                 rng.below(timeout_ms as u64) as u32 // never equal to the timeout
             } else {
@@ -382,6 +402,7 @@ impl Scenario for ExecRaw {
         let exec = *rng.pick(&EXEC_KINDS);
         let timeout_ms = if exec.is_future() && rng.chance(1, 2) { 10 + rng.below(91) as u32 } else { 0 };
         let max_items = if tier == Tier::Thorough { 24 } else { 16 };
+        let unit_us: u32 = *rng.pick(&[1000, 1000, 1000, 250, 37, 10, 1]);
         let mut sched = SchedSpec::draw(rng);
         // "counter jump": the metric counters start as if many items had been counted before (never next to the
         // documented reset at u32::MAX)
@@ -395,10 +416,10 @@ impl Scenario for ExecRaw {
             instruments: rng.below(4) as u8,
             limit: 1 + rng.below(8) as u32,
             timeout_ms,
-            items: draw_items(rng, exec, timeout_ms, max_items),
+            items: draw_items(rng, exec, timeout_ms, max_items, unit_us),
             feed_gap_ms: *rng.pick(&[0, 0, 1, 7]),
             schedule_finish_after_ms: if rng.chance(1, 4) { 1 + rng.below(60) as u32 } else { 0 },
-            unit_us: *rng.pick(&[1000, 1000, 1000, 250, 37, 10, 1]),
+            unit_us,
         }
     }
     fn sched<'a>(&self, p: &'a RawParams) -> &'a SchedSpec {
@@ -632,6 +653,7 @@ where
         let l_close = Arc::clone(&ledger2);
         let on_close = move |_stats: Arc<dyn StreamExecutorStats + Send + Sync>| {
             let l_close = Arc::clone(&l_close);
+            l_close.lock().unwrap().uni_close_invocations.push(now_ms(t0));
             async move {
                 l_close.lock().unwrap().uni_close_calls.push(now_ms(t0));
             }
@@ -782,6 +804,14 @@ where
     }
     // C12: the Uni's close callback: exactly once, after all MAX_STREAMS executors finished
     let key12 = |oracle: &str| format!("uni_exec/{}/{}/{}", p.kind.name(), p.exec.name(), oracle);
+    if l.uni_close_invocations.len() != 1 {
+        ctx::report("C12", "uni_close_callback_count", key12("uni_close_callback_count"), format!("the Uni's close callback was invoked {} times (MAX_STREAMS = {})", l.uni_close_invocations.len(), p.max_streams));
+    } else {
+        let last_item = l.finished.iter().map(|(_, t)| *t).chain(l.dropped_unfinished.iter().map(|(_, t)| *t)).max().unwrap_or(0);
+        if l.uni_close_invocations[0] < last_item {
+            ctx::report("C12", "uni_close_before_last_item", key12("uni_close_before_last_item"), format!("the Uni's close callback was invoked at {} us, the last item finished at {} us", l.uni_close_invocations[0], last_item));
+        }
+    }
     if l.uni_close_calls.len() != 1 {
         ctx::report("C12", "uni_close_callback_count", key12("uni_close_callback_count"), format!("the Uni's close callback ran {} times (MAX_STREAMS = {})", l.uni_close_calls.len(), p.max_streams));
     } else {
@@ -818,6 +848,7 @@ where
             let l_close = Arc::clone(&ledgers2[li]);
             let on_close = move |stats: Arc<dyn StreamExecutorStats + Send + Sync>| {
                 let l_close = Arc::clone(&l_close);
+                l_close.lock().unwrap().close_invocations.push((format!("{:?}", stats.executor_status().load(Relaxed)), now_ms(t0), stats.execution_finish_delta_nanos() >= stats.execution_start_delta_nanos()));
                 async move {
                     let status = stats.executor_status().load(Relaxed);
                     l_close.lock().unwrap().close_calls.push((format!("{:?}", status), now_ms(t0)));
@@ -1018,6 +1049,17 @@ where
             let ok = status == "StreamEnded" || (status == "ProgrammaticallyEnded" && was_cancelled);
             if !ok {
                 ctx::report("C12", "status_in_close_callback", key12("status_in_close_callback"), format!("listener {}: close callback found state {} (individually cancelled: {})", li, status, was_cancelled));
+            }
+        }
+        if l.close_invocations.len() != 1 {
+            ctx::report("C12", "close_callback_count", key12("close_callback_count"), format!("listener {}: close callback was invoked {} times", li, l.close_invocations.len()));
+        } else {
+            let (status, at, finish_ok) = &l.close_invocations[0];
+            let last_item = l.finished.iter().map(|(_, t)| *t).chain(l.dropped_unfinished.iter().map(|(_, t)| *t)).max().unwrap_or(0);
+            let was_cancelled = cancelled.as_ref().map(|c| c.0 == li).unwrap_or(false);
+            let ok = status == "StreamEnded" || (status == "ProgrammaticallyEnded" && was_cancelled);
+            if *at < last_item || !ok || !finish_ok {
+                ctx::report("C12", "close_callback_invoked_early", key12("close_callback_invoked_early"), format!("listener {}: close callback invoked at {} us (last item finished at {} us), found state {} (individually cancelled: {}), finish time not before start time: {}", li, at, last_item, status, was_cancelled, finish_ok));
             }
         }
     }
